@@ -7,6 +7,8 @@ import GLua.Proofs.LoweringBasic
 namespace GLua.Lowering
 open GLua.Compile GLua.MiniVM
 
+variable [NumStruct]
+set_option linter.unusedSectionVars false
 variable {V : Type}
 
 /-- one or more steps. -/
@@ -32,8 +34,10 @@ theorem step_resolved_jmp (d : Dom V) (orig : List Instr) (lp : List (Nat × Int
 
 /-- the loop of `threadJmp`, started on the instruction `cur` found at position `t`: if it succeeds with a
     distance different from the one it was given, the label-resolved code gets from `t` to `pc + distance + 1`
-    by executing JMPs only. -/
-theorem threadJmp_sound (d : Dom V) (orig : List Instr) (lp : List (Nat × Int)) (consts : List Konst) (pc : Nat) (ρ g : Nat → V) :
+    by executing JMPs only.  `hlab`: every label binding is ≥ -1 (labels are bound by `SetLabelPc(label, LastPC())`;
+    a missing key reads 0) — needed since the loop, like the Go code, no longer fails on a target below 0 but stops. -/
+theorem threadJmp_sound (d : Dom V) (orig : List Instr) (lp : List (Nat × Int)) (consts : List Konst) (pc : Nat) (ρ g : Nat → V)
+    (hlab : ∀ L, -1 ≤ lookupLabel lp L) :
     ∀ (fuel : Nat) (cur : Instr) (t : Nat) (dist res : Int),
       orig[t]? = some cur → threadJmp orig lp pc fuel cur dist = .ok res →
       res = dist ∨ (0 ≤ (pc : Int) + res + 1 ∧
@@ -45,26 +49,26 @@ theorem threadJmp_sound (d : Dom V) (orig : List Instr) (lp : List (Nat × Int))
     intro cur t dist res hcur h
     cases cur with
     | jmp sbx =>
+      have hnn' : 0 ≤ lookupLabel lp sbx.toNat + 1 := by have := hlab sbx.toNat; omega
+      have hstep := step_resolved_jmp d orig lp consts t sbx ρ g hcur hnn'
+      have hpos : ((pc : Int) + (lookupLabel lp sbx.toNat - (pc : Int)) + 1) = lookupLabel lp sbx.toNat + 1 := by omega
+      have hstop : res = lookupLabel lp sbx.toNat - (pc : Int) →
+          res = dist ∨ (0 ≤ (pc : Int) + res + 1 ∧
+            ReachesPlus d (resolveLabels orig lp) consts ⟨t, ρ, g⟩ ⟨((pc : Int) + res + 1).toNat, ρ, g⟩) := by
+        intro hr; right; subst hr; rw [hpos]; exact ⟨hnn', .one hstep⟩
       simp only [threadJmp] at h
       split at h
       · split at h
         · cases h
         · simp only [Except.ok.injEq] at h; exact Or.inl h.symm
       · split at h
-        · cases h
-        · rename_i hnn
-          split at h
-          · cases h
+        · simp only [Except.ok.injEq] at h; exact hstop h.symm
+        · split at h
+          · simp only [Except.ok.injEq] at h; exact hstop h.symm
           · rename_i next hnext
-            have hnn' : 0 ≤ lookupLabel lp sbx.toNat + 1 := by omega
-            have hstep := step_resolved_jmp d orig lp consts t sbx ρ g hcur hnn'
-            have hpos : ((pc : Int) + (lookupLabel lp sbx.toNat - (pc : Int)) + 1) = lookupLabel lp sbx.toNat + 1 := by omega
             rw [hpos] at hnext
             rcases ih next (lookupLabel lp sbx.toNat + 1).toNat (lookupLabel lp sbx.toNat - (pc : Int)) res hnext h with hr | ⟨h0, hr⟩
-            · right
-              subst hr
-              rw [hpos]
-              exact ⟨hnn', .one hstep⟩
+            · exact hstop hr
             · right
               exact ⟨h0, .cons hstep hr⟩
     | _ => simp [threadJmp] at h; exact Or.inl h.symm
@@ -73,28 +77,30 @@ theorem threadJmp_sound (d : Dom V) (orig : List Instr) (lp : List (Nat × Int))
     (5 hops, targets read from the unpatched code) is either 0 — the jump is turned into NOP only if … see
     `nop` below — or leads exactly where the label-resolved code arrives by following JMP instructions. -/
 theorem jump_threading_sound (d : Dom V) (orig : List Instr) (lp : List (Nat × Int)) (consts : List Konst) (pc : Nat) (sbx : Int)
-    (ρ g : Nat → V) (res : Int) (n : Nat) (hcur : orig[pc]? = some (.jmp sbx)) (h : threadJmp orig lp pc (n + 1) (.jmp sbx) 0 = .ok res) :
+    (ρ g : Nat → V) (res : Int) (n : Nat) (hlab : ∀ L, -1 ≤ lookupLabel lp L)
+    (hcur : orig[pc]? = some (.jmp sbx)) (h : threadJmp orig lp pc (n + 1) (.jmp sbx) 0 = .ok res) :
     0 ≤ (pc : Int) + res + 1 ∧
       ReachesPlus d (resolveLabels orig lp) consts ⟨pc, ρ, g⟩ ⟨((pc : Int) + res + 1).toNat, ρ, g⟩ := by
-  -- the first hop is always taken (otherwise the loop raises "too long to jump" or fails)
+  -- the first hop is always taken (otherwise the loop raises "too long to jump")
+  have hnn' : 0 ≤ lookupLabel lp sbx.toNat + 1 := by have := hlab sbx.toNat; omega
+  have hstep := step_resolved_jmp d orig lp consts pc sbx ρ g hcur hnn'
+  have hpos : ((pc : Int) + (lookupLabel lp sbx.toNat - (pc : Int)) + 1) = lookupLabel lp sbx.toNat + 1 := by omega
+  have hstop : res = lookupLabel lp sbx.toNat - (pc : Int) →
+      0 ≤ (pc : Int) + res + 1 ∧
+        ReachesPlus d (resolveLabels orig lp) consts ⟨pc, ρ, g⟩ ⟨((pc : Int) + res + 1).toNat, ρ, g⟩ := by
+    intro hr; subst hr; rw [hpos]; exact ⟨hnn', .one hstep⟩
   simp only [threadJmp] at h
   split at h
   · simp at h
   · split at h
-    · cases h
-    · rename_i hnn
-      split at h
-      · cases h
+    · simp only [Except.ok.injEq] at h; exact hstop h.symm
+    · split at h
+      · simp only [Except.ok.injEq] at h; exact hstop h.symm
       · rename_i next hnext
-        have hnn' : 0 ≤ lookupLabel lp sbx.toNat + 1 := by omega
-        have hstep := step_resolved_jmp d orig lp consts pc sbx ρ g hcur hnn'
-        have hpos : ((pc : Int) + (lookupLabel lp sbx.toNat - (pc : Int)) + 1) = lookupLabel lp sbx.toNat + 1 := by omega
         rw [hpos] at hnext
-        rcases threadJmp_sound d orig lp consts pc ρ g n next (lookupLabel lp sbx.toNat + 1).toNat
+        rcases threadJmp_sound d orig lp consts pc ρ g hlab n next (lookupLabel lp sbx.toNat + 1).toNat
             (lookupLabel lp sbx.toNat - (pc : Int)) res hnext h with hr | ⟨h0, hr⟩
-        · subst hr
-          rw [hpos]
-          exact ⟨hnn', .one hstep⟩
+        · exact hstop hr
         · exact ⟨h0, .cons hstep hr⟩
 
 end GLua.Lowering
